@@ -14,7 +14,7 @@
     Oracle: the property text on Go's output alone (Spec/GenShape.v). *)
 From Coq Require Import String ZArith NArith QArith Qabs Bool Arith List.
 From GT Require Import Base.Sexp Base.UTree Base.Codec Spec.Obs Spec.GenShape
-     Model.Reroot Model.Rand Model.Rand2 Model.TreeGen Model.Index Judge.Common.
+     Model.Reroot Model.Rand Model.Rand2 Model.TreeGen Model.Index Model.C16Extra8 Judge.Common.
 Import ListNotations.
 Local Close Scope Q_scope.
 Local Open Scope string_scope.
@@ -443,9 +443,83 @@ Definition judge_dupnames (names : list string) (o : sexp) : verdict :=
   | _, _ => VBad "undecodable observation"
   end.
 
+(** ** BipartitionTree / EdgeTree (round 8; model in Model/C16Extra8.v).
+    case: ((gen bipartition) (n N) (rooted F) (seed 1) (nraw 0) (lefts (..)) (rights (..)))
+          ((gen edgetree) ... (tree T) (k K))   -- EdgeTree(T, T.Edges()[K], nil)
+    Oracle, on Go's tree alone: well formed, the tips are exactly the given names, exactly one
+    internal branch and it separates the two name sets, every length 1, indexes ready. *)
+Definition oracle_two_star (lefts rights : list string) (g : utree) (o : sexp) : option string :=
+  if negb (wf g) then Some "the tree returned is not well formed"
+  else if negb (list_eqb String.eqb (ssort (leaves g)) (ssort (lefts ++ rights)))
+  then Some "the tips are not exactly the given names"
+  else match internal_edges g with
+       | [(e, c)] =>
+         if negb (list_eqb String.eqb (ssort (leaves c)) (ssort rights)) &&
+            negb (list_eqb String.eqb (ssort (leaves c)) (ssort lefts))
+         then Some "the internal branch does not separate the left names from the right names"
+         else if negb (forallb (fun p => qeqb (elen (fst p)) 1%Q) (edges g))
+         then Some "a branch length is not 1.0"
+         else indexes_ready g o
+       | _ => Some "not exactly one internal branch"
+       end.
+
+Definition judge_two_star (tag : string) (m : gres) (valid : bool) (lefts rights : list string) (o : sexp) : verdict :=
+  match get_string "err" o, get_string "panic" o with
+  | Some gerr, Some gpanic =>
+    if negb (String.eqb gpanic "") then VOracle ("crash instead of a tree or an error: " ++ gpanic)
+    else match m with
+    | GPanic => VCorr "model: crash; implementation returns"
+    | GErr msg =>
+      if negb (String.eqb gerr msg) then VCorr ("model error: " ++ msg ++ " / implementation: " ++ gerr)
+      else if valid then VOracle ("valid name sets are rejected: " ++ gerr)
+      else VOk false (tag ++ ":rejected")
+    | GOk t =>
+      if negb (String.eqb gerr "") then VCorr ("model: a tree; implementation refuses: " ++ gerr)
+      else match get_tree "tree" o with
+           | None => VBad "no tree in observation"
+           | Some g =>
+             if negb (utree_eqb t g) then VCorr ("model: " ++ show_utree t)
+             else match index_corr t o with
+                  | Some msg => VCorr msg
+                  | None =>
+                    if negb valid then VOracle "name sets outside the documented domain are accepted"
+                    else match oracle_two_star lefts rights g o with
+                         | Some msg => VOracle msg
+                         | None => VOk true (tag ++ ":ok")
+                         end
+                  end
+           end
+    end
+  | _, _ => VBad "undecodable observation"
+  end.
+
+Definition judge_bipartition (c o : sexp) : verdict :=
+  match get_strings "lefts" c, get_strings "rights" c with
+  | Some lefts, Some rights =>
+    let valid := Nat.leb 2 (length lefts) && Nat.leb 2 (length rights) && negb (has_dup (lefts ++ rights)) in
+    judge_two_star "bipartition" (bipartition_tree lefts rights) valid lefts rights o
+  | _, _ => VBad "undecodable case"
+  end.
+
+Definition judge_edgetree (c o : sexp) : verdict :=
+  match get_tree "tree" c, get_nat "k" c with
+  | Some src, Some k =>
+    match nth_error (edges src) k with
+    | Some (_, sub) =>
+      let isright := fun nm => mem_str nm (leaves sub) in
+      let all := all_tip_names src in
+      judge_two_star "edgetree" (GOk (edge_tree_of all isright)) true
+                     (filter (fun nm => negb (isright nm)) all) (filter isright all) o
+    | None => VBad "no such branch"
+    end
+  | _, _ => VBad "undecodable case"
+  end.
+
 Definition judge (c o : sexp) : verdict :=
   match get_string "gen" c, (x <- get "n" c ;; dec_Z x) with
   | Some gen, Some nz =>
+    if String.eqb gen "bipartition" then judge_bipartition c o else
+    if String.eqb gen "edgetree" then judge_edgetree c o else
     if (nz <? 0)%Z then judge_negative gen o else
     let names0 := match get_strings "names" c with Some l => l | None => [] end in
     if String.eqb gen "starnames" && has_dup names0 then judge_dupnames names0 o else
